@@ -51,7 +51,7 @@ def gen(tier, rng):
                 dh = 1 + n % 9
                 mode = n % 3            # 0 horizontal only, 1 vertical only, 2 both
                 flt = filters[n % 7]
-                alg = ["conv", "conv", "interp", "ss"][n % 4]
+                alg = rz.pick(n, 133, ["conv", "conv", "interp", "ss"])
                 alpha = (n // 3) % 2 == 0
                 if mode == 0:
                     geo = (sw, dh, dw, dh)
@@ -59,7 +59,7 @@ def gen(tier, rng):
                     geo = (dh, sw, dh, dw)
                 else:
                     geo = (sw, max(1, (dh * fn + fd - 1) // fd), dw, dh)
-                kind = ["rand", "rand", "max", "narrow", "tiny"][n % 5]
+                kind = rz.pick(n, 134, ["rand", "rand", "max", "narrow", "tiny"])
                 box = None
                 Q = 1
                 if n % 7 == 0 and geo[0] >= 3 and geo[1] >= 2:
@@ -91,7 +91,7 @@ def gen(tier, rng):
                     chk, log, echo = tol_class(pt, alpha)
                     g += 1
                     for cpu in rz.CPUS:
-                        cases.append(rz.resize_case(pt, sw, sh, dw, dh, alg=["conv", "interp"][n % 2], flt=flt, alpha=alpha, box=box, Q=1, cpu=cpu,
+                        cases.append(rz.resize_case(pt, sw, sh, dw, dh, alg=rz.pick(n, 135, ["conv", "interp"]), flt=flt, alpha=alpha, box=box, Q=1, cpu=cpu,
                                                     src_c=content(pt, "rand", n), src_lay={"k": "image_ref", "guard": 1},
                                                     dst_lay={"k": "crop_mut", "pad": [1, 1, 1, 2], "guard": 1} if n % 2 else {"k": "slice", "guard": 1},
                                                     log=log, chk=("pipeline", "ret_ok", "outside") + ((chk,) if cpu != "none" else ()), g=g, echo=echo))
